@@ -22,6 +22,49 @@ CHECKS = {
         "DESIGN.md section 3, C14"),
 }
 
+CHECKS.update({
+    "C01": (
+        "model_checking",
+        "exhaustive product exploration documents x paths against a "
+        "reference evaluator stepped over document positions",
+        "Every document of the bounded corpus (<= N nodes over collision-"
+        "forcing alphabets, plus the collision pack) is queried with every "
+        "path of up to k segments over the segment vocabulary; the reference "
+        "evaluator enumerates all runs of the path over the document's "
+        "positions and the real engine must return the same node objects in "
+        "the same order in both notations, through exists(), required and "
+        "optional queries. Complete within the printed bounds.",
+        "the reference semantics are README / docstrings / test-pinned "
+        "behaviour (DESIGN 2.5); cases those leave open are counted as "
+        "unspecified and checked only for notation and entry-point agreement",
+        "DESIGN.md section 3, C01"),
+    "C12": (
+        "model_checking",
+        "complete enumeration of the finite operator x value x term grid "
+        "against an independent typed-comparison reference, plus plain/"
+        "inverted partition on every collection of the corpus",
+        "The grid 9 operators x 44 loaded haystacks x 40 needles is finite "
+        "and enumerated completely against refmatch; inversion is checked as "
+        "a partition of the candidates on every collection of every corpus "
+        "document for every search segment.",
+        "pairs whose spelling is another kind of Python literal, or the text "
+        "of null / booleans, are not decided by the documents: only 'does "
+        "not raise' is checked there",
+        "DESIGN.md section 3, C12"),
+    "C15": (
+        "model_checking",
+        "exhaustive product exploration documents x paths with unrestricted "
+        "bounds; oracle = exception class",
+        "Every document of the corpus (incl. mixed-container lists) x every "
+        "1-segment path and every navigator+segment 2-path over a vocabulary "
+        "with out-of-range indexes/slices, invalid regexes, keyword searches "
+        "and collectors; the outcome must be results or a YAML Path "
+        "exception, for required queries and for optional queries on a copy.",
+        "collectors are in scope only when every operand selects scalars "
+        "(as the property states); paths come from well-formed ASTs",
+        "DESIGN.md section 3, C15"),
+})
+
 NOT_YET = {
 }
 
